@@ -638,7 +638,9 @@ FieldInit:
         ;
 
 ArrayDecl:
-        { types = 0; } ArrayDecl2;
+        /* A dimension can contain a nested declarator (e.g. a struct type used as
+         * quantifier range), so the counter of the enclosing declarator is saved. */
+        { $<number>$ = types; types = 0; } ArrayDecl2 { types = $<number>1; };
 
 ArrayDecl2:
         /* empty */
